@@ -311,3 +311,148 @@ def run(ctx, rep):
     H.who_may_touch(ctx, rep, "R10.9", K.CONN, "_proxy_cache", {"__init__", "_cleanup", "_unbox"},
                     "a cached proxy returned from anywhere but _unbox's own cache branch is treated as new there and its count is not "
                     "incremented: the owner has counted two references, the peer releases one")
+    rep.rule("R10.10", "nothing that outlives the send keeps the request's operands alive (a dying proxy is not resurrected by its "
+                       "own release notice)")
+    rep.rule("R10.11", "the value a handler returned stays bound to a local until the reply is handed to the send layer (a proxy "
+                       "handed back is not released before the reply that carries it)")
+    _retention_rules(ctx, rep)
+
+
+def _retention_rules(ctx, rep):
+    """R10.10 / R10.11: object lifetimes the reference-count protocol relies on."""
+    import ast as _ast
+    # ---- R10.10: the pending-request bookkeeping keeps no reference to the request's operands
+    bad = []
+    sites = 0
+    for q in ("sync_request", "async_request", "_async_request"):
+        fu = ctx.func(K.CONN + "." + q)
+        rep.analysed(fu)
+        ps = A.params(fu.node)
+        operands = set()
+        if fu.node.args.vararg is not None:
+            operands.add(fu.node.args.vararg.arg)
+        operands |= {p for p in ps if p == "args"}
+        # locals derived from the operands without passing through the boxing step
+        changed = True
+        while changed:
+            changed = False
+            for n in A.walk(fu.node):
+                if isinstance(n, _ast.Assign) and len(n.targets) == 1 and isinstance(n.targets[0], _ast.Name) and \
+                        n.targets[0].id not in operands:
+                    if any(isinstance(x, _ast.Name) and x.id in operands and not _under_call(x, n.value) for x in A.walk(n.value)):
+                        operands.add(n.targets[0].id)
+                        changed = True
+        if not operands:
+            continue
+
+        def mentions(e):
+            return [x for x in A.walk(e, into_scopes=True) if isinstance(x, _ast.Name) and x.id in operands]
+        for n in A.walk(fu.node, into_scopes=True):
+            if isinstance(n, _ast.Call):
+                cn = A.call_name(n) or ""
+                is_ctor = bool(cn) and ctx.repo.resolve_class(fu.module, cn) is not None
+                if is_ctor:
+                    sites += 1
+                    for a_ in list(n.args) + [k.value for k in n.keywords]:
+                        if mentions(a_):
+                            bad.append((n, "%s(...) is given the request's operands" % cn))
+            elif isinstance(n, (_ast.Assign, _ast.AugAssign)):
+                tg = n.targets if isinstance(n, _ast.Assign) else [n.target]
+                for t in tg:
+                    base = t
+                    while isinstance(base, _ast.Subscript):
+                        base = base.value
+                    if isinstance(base, _ast.Attribute) and mentions(n.value):
+                        bad.append((n, "`%s` stores the request's operands" % A.src(n)))
+            elif isinstance(n, (_ast.Lambda, _ast.FunctionDef)) and n is not fu.node:
+                body = n.body if isinstance(n.body, list) else [n.body]
+                if any(mentions(b) for b in body):
+                    bad.append((n, "a closure created for the request captures its operands"))
+    rep.floor("R10.10", "result-object constructions on the request path", sites, 1)
+    rep.ob("R10.10", "request path: nothing that outlives the send (result object, callback table, connection field) refers to the "
+           "request's operands", not bad,
+           "the operands flow only into boxing/sending" if not bad else
+           "%s: the entry lives until the reply arrives, so a proxy sent as an operand - in particular the dying proxy in its own "
+           "release notice - is kept alive (resurrected) by its own request and is handed out again from the proxy cache although its "
+           "finalizer has already run; the reference it then stands for is never returned to the owner" % bad[0][1],
+           ctx.loc(bad[0][0]) if bad else ctx.func(K.CONN + ".async_request").loc, kind="site")
+
+    # ---- R10.11: the value a handler returned is held in a local until the reply has been handed to the send layer
+    fdr = ctx.func(K.CONN + "._dispatch_request")
+    mod = fdr.module
+    try:
+        raw = _ast.parse(mod.text)
+    except SyntaxError:
+        raw = None
+    A.set_parents(raw)
+    rfn = [n for n in _ast.walk(raw) if isinstance(n, _ast.FunctionDef) and n.lineno == fdr.node.lineno]
+    if len(rfn) != 1:
+        rep.undecided("R10.11", "the source form of _dispatch_request", "cannot locate it in the unnormalised tree")
+        return
+    rfn = rfn[0]
+    cls = A.enclosing(rfn, _ast.ClassDef)
+
+    def handler_calls(fn):
+        out = []
+        for n in _ast.walk(fn):
+            if isinstance(n, _ast.Call) and isinstance(n.func, _ast.Subscript):
+                b = n.func.value
+                if isinstance(b, _ast.Attribute) and isinstance(b.value, _ast.Name) and b.value.id in ("self", "cls", "type"):
+                    out.append(n)
+                elif isinstance(b, _ast.Name):
+                    out.append(n)
+        return out
+
+    def held(call, fn, depth=0):
+        """None if the call's value is bound to a plain local for the rest of fn (following `return` into private helpers'
+        call sites), else a description"""
+        par = getattr(call, "_parent", None)
+        if isinstance(par, _ast.Assign) and par.value is call and len(par.targets) == 1 and isinstance(par.targets[0], _ast.Name):
+            nm = par.targets[0].id
+            others = [x for x in _ast.walk(fn) if isinstance(x, _ast.Name) and x.id == nm and
+                      isinstance(x.ctx, (_ast.Store, _ast.Del)) and x is not par.targets[0]]
+            if others:
+                return "`%s` is re-bound or deleted at line %d before the function ends" % (nm, others[0].lineno)
+            return None
+        if isinstance(par, _ast.Return) and depth < 3 and cls is not None:
+            sites_ = [c for m in cls.body if isinstance(m, _ast.FunctionDef) for c in _ast.walk(m)
+                      if isinstance(c, _ast.Call) and isinstance(c.func, _ast.Attribute) and c.func.attr == fn.name and
+                      isinstance(c.func.value, _ast.Name) and c.func.value.id == "self"]
+            if not sites_:
+                return "its value is returned by %s, whose callers were not found" % fn.name
+            for c in sites_:
+                r = held(c, A.enclosing(c, _ast.FunctionDef), depth + 1)
+                if r:
+                    return r
+            return None
+        return "its value is used as a temporary inside `%s`" % (A.src(par)[:90] if par is not None else "?")
+    hc = handler_calls(rfn)
+    if not hc:   # moved into a helper: look through the class's private helpers called from here
+        for c in _ast.walk(rfn):
+            if isinstance(c, _ast.Call) and isinstance(c.func, _ast.Attribute) and isinstance(c.func.value, _ast.Name) and \
+                    c.func.value.id == "self" and cls is not None:
+                for m in cls.body:
+                    if isinstance(m, _ast.FunctionDef) and m.name == c.func.attr:
+                        hc += [(x, m) for x in handler_calls(m)]
+        pairs = hc
+    else:
+        pairs = [(x, rfn) for x in hc]
+    rep.floor("R10.11", "handler invocations found in the source form of _dispatch_request", len(pairs), 1)
+    probs = [(x, held(x, f)) for x, f in pairs]
+    probs = [(x, r) for x, r in probs if r]
+    rep.ob("R10.11", "_dispatch_request: the handler's return value stays bound to a local until the reply is handed to the send layer",
+           not probs, "bound to a local that is not re-bound before the function returns" if not probs else
+           "%s: when the value is the last reference to a proxy of the peer's object (a handler popping it from a container and "
+           "returning it), the proxy dies right after boxing - its release notice is sent BEFORE the reply that hands the object "
+           "back, the owner drops the object and cannot resolve the reference in the reply" % probs[0][1],
+           "%s:%d" % (mod.relpath, probs[0][0].lineno) if probs else fdr.loc, kind="site")
+
+
+def _under_call(name_node, root):
+    """is name_node (inside root) an argument of a call to self._box(...)?"""
+    import ast as _ast
+    for c in A.walk(root):
+        if isinstance(c, _ast.Call) and (A.call_name(c) or "").endswith("_box"):
+            if any(x is name_node for a_ in c.args for x in A.walk(a_)):
+                return True
+    return False
